@@ -58,12 +58,13 @@ class SignatureTrie:
 
         def all_matches(self, sig: Sequence[Dtype], tyvars: dict[str, Dtype]) -> list[tuple[list[Dtype], Any]]:
             if len(sig) == 0:
-                return [
-                    (
-                        [],
-                        self.data if not isinstance(self.data, Tyvar) else tyvars[self.data.name],
-                    )
-                ]
+                data = self.data
+                if isinstance(data, Tyvar):
+                    data = tyvars[data.name]
+                elif isinstance(data, types.List) and isinstance(data.inner, Tyvar):
+                    # e.g. the return type `List(S)` of `list.agg`
+                    data = types.List(tyvars[data.inner.name])
+                return [([], data)]
 
             matches: list[tuple[list[Dtype], Any]] = []
             tyvar = None
